@@ -292,6 +292,21 @@ def first_diff(a, b):
     return min(len(ta), len(tb)) // 4
 
 
+def safe_monitor(monitor, case, tr, raw):
+    """run a property monitor; a crash marker in the trace or a trace the
+    monitor cannot interpret is itself reported as a failure of the run."""
+    if tr is not None:
+        for (t, loc, kind, val) in tr:
+            if t == -9 and kind == -9:
+                return "the code under test crashed with signal %d under this schedule" % val
+    if raw is not None and raw.startswith("HANG"):
+        return "the code under test ran without reaching a scheduling point (hang)"
+    try:
+        return monitor(case, tr, raw)
+    except Exception as e:   # noqa: BLE001
+        return "the implementation trace does not have the shape the monitor expects (%s: %s)" % (type(e).__name__, e)
+
+
 def correspond(ctx, label, model, exe, cases, monitor=None, known=None):
     """lock-step: same cases through the implementation and the extracted
     model; traces must be identical.  The monitor (property oracle on the
@@ -316,7 +331,7 @@ def correspond(ctx, label, model, exe, cases, monitor=None, known=None):
                                      "impl": (impl[i] or "")[:4000], "model": (mod[i] or "")[:4000],
                                      "first_diff_event": d})
         if monitor is not None:
-            why = monitor(c, tr, impl[i])
+            why = safe_monitor(monitor, c, tr, impl[i])
             if why:
                 nmon += 1
                 report_violation(ctx, label, c, why, impl[i], known)
